@@ -82,6 +82,10 @@ def gen_leaf(rng, depth):
             # an occasional large array (traces, native spectra): file sizes
             # then span 1 kB .. 100 kB
             shape = [rng.choice([1500, 4000, 12000])]
+        elif rng.random() < 0.004:
+            # and a rare very large one (optical depths of a high-resolution
+            # run: tens of MB), 1-D or 2-D with an awkward leading dimension
+            shape = rng.choice([[4500000], [101, 45000], [37, 120001]])
         return {'t': 'array', 'dtype': rng.choice(['f8', 'f8', 'f8', 'i8',
                                                    'b1', 'f4', 'i4']),
                 'shape': shape, 'seed': rng.randrange(2**31),
@@ -436,6 +440,9 @@ def generate(run_seed, tier):
             for _ in range(o.randint(1, 3)):
                 ops.append(['set_model_param', o.randrange(10**6),
                             o.uniform(1.03, 1.3)])
+            if fam != 'transmission' and o.random() < 0.6:
+                # the number of quadrature points changed after construction
+                ops.append(['set_num_gauss', o.randint(2, 7)])
         ops.append(['write_model'])
         if o.random() < 0.5:
             ops += [['close'], ['open', 'a'],
@@ -533,7 +540,7 @@ def plan_ops(ops):
             if ('Output',) not in all_groups:
                 all_groups.add(('Output',))
                 out.append(op)
-        elif k in ('evaluate_model', 'set_model_param'):
+        elif k in ('evaluate_model', 'set_model_param', 'set_num_gauss'):
             out.append(op)
         elif k in ('store_spectrum', 'write_model'):
             nm = op[3] if k == 'store_spectrum' else 'ModelParameters'
@@ -822,6 +829,11 @@ def execute(case, keep_text=False):
                     t_[3](t_[2]() * op[2])
                     if r == 0:
                         out.bump('probes', 'parameter_changed_before_write')
+            elif k == 'set_num_gauss':
+                if hasattr(model, 'set_num_gauss'):
+                    model.set_num_gauss(op[1])
+                    if r == 0:
+                        out.bump('probes', 'quadrature_changed_before_write')
             elif k == 'write_model':
                 model.write(o)
                 if r == 0:
@@ -1203,6 +1215,9 @@ def check_reload(viol, out, fname, model, cfg):
             if n_ in mref.fittingParameters and \
                     mref.fittingParameters[n_][2]() != t_[2]():
                 mref.fittingParameters[n_][3](t_[2]())
+        if hasattr(model, '_mu_quads') and \
+                len(mref._mu_quads) != len(model._mu_quads):
+            mref.set_num_gauss(len(model._mu_quads))
         r1 = mref.model()
     if not np.array_equal(r1[0], r2[0]) or \
             not np.allclose(r1[1], r2[1], rtol=1e-12, atol=0):
